@@ -1,14 +1,23 @@
 #!/bin/bash
-# usage: try_mut.sh <property-id> <patch.diff>
-# apply a seeded change to a scratch worktree of /repo (never to /repo itself while other checks
-# run), run the check against it (VERIF_REPO), report, and reset the worktree.
-ID=$1; P=$2
+# usage: try_mut.sh <property-id> <patch.diff> [tag]
+# Apply a seeded change to a scratch worktree of /repo (never to /repo itself) and run the check
+# against it FROM A SNAPSHOT of /verif (/tmp/verif-snap, refreshed with `try_mut.sh --snapshot`),
+# so that editing /verif meanwhile does not disturb the run. Evidence goes to /tmp/mut-evidence.
+S=/tmp/verif-snap
+if [ "$1" = "--snapshot" ]; then
+  rm -rf $S; mkdir -p $S; rsync -a --exclude build --exclude .git /verif/ $S/; echo "snapshot of /verif at $S"; exit 0
+fi
+ID=$1; P=$2; TAG=$3
+[ -d $S ] || { echo "no snapshot: run try_mut.sh --snapshot"; exit 9; }
 W=/tmp/mutrepo
 if [ ! -d $W ]; then git -C /repo worktree prune; git -C /repo worktree add -q --detach $W HEAD; fi
 cd $W || exit 9
 git checkout -q --detach $(git -C /repo rev-parse HEAD) && git checkout -- . && git clean -fdq
 git apply "$P" || { echo "patch does not apply"; exit 9; }
+# point the hooks of the scratch tree at the snapshot's harness files
+grep -rl '"/verif/kani/' $W --include=*.rs | xargs sed -i "s#\"/verif/kani/#\"$S/kani/#"
 mkdir -p /tmp/mut-evidence
-cd /verif && VERIF_REPO=$W VERIF_EVIDENCE_DIR=/tmp/mut-evidence ./check $ID > /tmp/try_mut_$ID.log 2>&1; rc=$?; [ -n "$3" ] && cp /tmp/try_mut_$ID.log /tmp/try_mut_${ID}_$3.log
+cd $S && VERIF_REPO=$W VERIF_EVIDENCE_DIR=/tmp/mut-evidence ./check $ID > /tmp/try_mut_$ID.log 2>&1; rc=$?
+[ -n "$TAG" ] && cp /tmp/try_mut_$ID.log /tmp/try_mut_${ID}_$TAG.log
 git -C $W checkout -- .
 echo "check $ID rc=$rc"; grep -E "^VIOLATION|^UNDECIDED|refuted|KNOWN" /tmp/try_mut_$ID.log | cut -c1-400
